@@ -10,7 +10,7 @@
                    does NOT wait for the handlers: returning from main ends the
                    process and the kernel cuts every connection.
      acceptLoop    for { conn, err := ln.Accept()
-                         temporary net.Error -> (pause,) continue
+                         temporary net.Error -> continue
                          other error         -> break
                          go func(){ defer conn.Close(); handleConn(conn) }() }
      handleConn    statsChannel <- (addr != "")      unbuffered; statsThread receives
@@ -63,10 +63,13 @@
      LoopEndsOnlyOnPerm the accept loop ends only after a permanent Accept error
                         or after the listener was closed; a temporary error does
                         not end it.
-     NoSpin             every temporary error is followed by a pause before the
-                        next Accept call (AsIs_Spin = TRUE: the pinned code
-                        called Accept again at once - with a listener that keeps
-                        failing, e.g. EMFILE, that is a busy loop).
+                        What the loop does between a temporary error and the next
+                        Accept call is NOT a property: the code calls Accept again
+                        at once (AcceptRetryAtOnce - with a listener that keeps
+                        failing, e.g. EMFILE, a busy loop; the real listener has
+                        no temporary errors); a tree that pauses first
+                        (AcceptRetryAfterPause) is accepted as well.  Which of the
+                        two was seen is noted by the check, never judged.
      StatsNeverBlocks   liveness: a handler at the statsChannel send gets past it
                         (the receiver is statsThread, started by main before any
                         listener; constant StatsThread = FALSE is the what-if
@@ -81,8 +84,6 @@
                         code does not drain (DrainOnExit is what one might
                         expect; it is violated, see MC_drain.cfg).
 
-   Deviation constants (TRUE = the pinned code before the repair):
-     AsIs_Spin      no pause after a temporary Accept error.
    What-if constant Mut ("none" = the code): vacuity guards, each must violate
    exactly the property named:
      "noAclose"      A does not close conn                 -> NoStuck (B parked for ever)
@@ -116,17 +117,16 @@ CONSTANTS
   OrReacts,      \* BOOLEAN: tor answers a FIN on the ORPort conn by closing it (fairness assumption)
   EnvLite,       \* BOOLEAN: a tame environment (no read error, no write failure, no reset) - keeps
                  \* configurations with several connections small; the full environment is checked with one
-  AsIs_Spin,
   Mut
 
 ASSUME NConns \in Nat /\ NUp \in Nat /\ NDown \in Nat /\ MaxTemp \in Nat /\ MaxPerm \in 0..1
-ASSUME WithMain \in BOOLEAN /\ StdinClose \in BOOLEAN /\ StatsThread \in BOOLEAN /\ OrReacts \in BOOLEAN /\ AsIs_Spin \in BOOLEAN /\ EnvLite \in BOOLEAN
+ASSUME WithMain \in BOOLEAN /\ StdinClose \in BOOLEAN /\ StatsThread \in BOOLEAN /\ OrReacts \in BOOLEAN /\ EnvLite \in BOOLEAN
 ASSUME Mut \in {"none", "noAclose", "breakOnTemp", "noDeferConn", "noDeferOr", "orCloseEarly", "dropChunk"}
 
 Conns == 1..NConns
 
 VARIABLES
-  L,   \* accept loop: [pc, temps, pauses, spin, perm, nacc]
+  L,   \* accept loop: [pc, temps, pauses, perm, nacc]
   C,   \* connections: function Conns -> record (see Fresh)
   M,   \* main: [pc, sigq, stdin, lnClosed]
   nstats   \* values statsThread has received since its last report
@@ -164,7 +164,7 @@ BPcs == {"none", "read", "write", "closewrite", "closeconn", "done"}
 IsPrefixNat(s, n) == Len(s) <= n /\ \A k \in 1..Len(s) : s[k] = k
 
 TypeOK ==
-  /\ L.pc \in {"accept", "backoff", "ended"} /\ L.temps \in 0..MaxTemp /\ L.pauses \in 0..MaxTemp /\ L.spin \in 0..MaxTemp
+  /\ L.pc \in {"accept", "backoff", "ended"} /\ L.temps \in 0..MaxTemp /\ L.pauses \in 0..MaxTemp
   /\ L.perm \in BOOLEAN /\ L.nacc \in 0..NConns
   /\ M.pc \in {"serve", "closing", "return", "exited"} /\ M.sigq \in 0..1 /\ M.stdin \in {"open", "eof", "sent"} /\ M.lnClosed \in BOOLEAN
   /\ nstats \in 0..NConns
@@ -175,7 +175,7 @@ TypeOK ==
        /\ C[i].cclosed \in BOOLEAN /\ C[i].cwfail \in BOOLEAN /\ C[i].ofin \in BOOLEAN /\ C[i].oclosed \in BOOLEAN /\ C[i].dialerr \in BOOLEAN
 
 Init ==
-  /\ L = [pc |-> "accept", temps |-> 0, pauses |-> 0, spin |-> 0, perm |-> FALSE, nacc |-> 0]
+  /\ L = [pc |-> "accept", temps |-> 0, pauses |-> 0, perm |-> FALSE, nacc |-> 0]
   /\ C = [i \in Conns |-> Fresh]
   /\ M = [pc |-> "serve", sigq |-> 0, stdin |-> "open", lnClosed |-> FALSE]
   /\ nstats = 0
@@ -191,11 +191,17 @@ LAcceptConn(d) ==     \* environment: the listener delivers the next connection;
   /\ C' = [C EXCEPT ![L.nacc + 1].h = "stats", ![L.nacc + 1].plan = d]
   /\ UNCHANGED <<M, nstats>>
 
-LAcceptTemp ==        \* environment: Accept returns a temporary net.Error
+(* environment: Accept returns a temporary net.Error.  As-is: continue, Accept is called again at once *)
+AcceptRetryAtOnce ==
   /\ Alive /\ L.pc = "accept" /\ ~M.lnClosed /\ L.temps < MaxTemp
   /\ L' = (IF Mut = "breakOnTemp" THEN [L EXCEPT !.temps = @ + 1, !.pc = "ended"]
-           ELSE IF AsIs_Spin THEN [L EXCEPT !.temps = @ + 1, !.spin = @ + 1]
-           ELSE [L EXCEPT !.temps = @ + 1, !.pauses = @ + 1, !.pc = "backoff"])
+           ELSE [L EXCEPT !.temps = @ + 1])
+  /\ UNCHANGED <<C, M, nstats>>
+
+(* ... or the loop sleeps first (the idiom of net/http.Server.Serve): equally acceptable, see the header *)
+AcceptRetryAfterPause ==
+  /\ Alive /\ L.pc = "accept" /\ ~M.lnClosed /\ L.temps < MaxTemp /\ Mut # "breakOnTemp"
+  /\ L' = [L EXCEPT !.temps = @ + 1, !.pauses = @ + 1, !.pc = "backoff"]
   /\ UNCHANGED <<C, M, nstats>>
 
 LBackoffDone ==       \* the pause ends, Accept is called again
@@ -412,7 +418,7 @@ CodeNext ==
   \/ \E i \in Conns : HandlerCode(i) \/ ACode(i) \/ BCode(i)
 
 EnvNext ==
-  \/ (\E d \in {"ok", "fail"} : LAcceptConn(d)) \/ LAcceptTemp \/ LAcceptPerm
+  \/ (\E d \in {"ok", "fail"} : LAcceptConn(d)) \/ AcceptRetryAtOnce \/ AcceptRetryAfterPause \/ LAcceptPerm
   \/ (\E i \in Conns : ClientChunk(i) \/ ClientEnd(i, "eof") \/ ClientEnd(i, "err") \/ ConnWriteFail(i)
                         \/ OrChunk(i) \/ OrFin(i) \/ OrReset(i, TRUE) \/ OrReset(i, FALSE))
   \/ MSigterm \/ MStdinEOF
@@ -436,7 +442,8 @@ Spec == Init /\ [][Next]_vars /\ Fairness
    at rest; OrReset is issued with keep = FALSE only (at rest nothing is on the wire). *)
 Quiescent == ~ENABLED CodeNext
 GAccept(d)        == Quiescent /\ LAcceptConn(d)
-GAcceptTemp       == Quiescent /\ LAcceptTemp
+GAcceptRetryAtOnce     == Quiescent /\ AcceptRetryAtOnce
+GAcceptRetryAfterPause == Quiescent /\ AcceptRetryAfterPause
 GAcceptPerm       == Quiescent /\ LAcceptPerm
 GClientChunk(i)   == Quiescent /\ ClientChunk(i)
 GClientEnd(i, k)  == Quiescent /\ ClientEnd(i, k)
@@ -452,7 +459,7 @@ GenNext ==
   \/ (\E i \in Conns : HStats(i) \/ HDial(i) \/ HWait(i) \/ HOrClose(i) \/ HConnClose(i))
   \/ (\E i \in Conns : AReadChunk(i) \/ AReadEnd(i) \/ AWrite(i) \/ ACloseRead(i) \/ ACloseConn(i))
   \/ (\E i \in Conns : BReadChunk(i) \/ BReadEnd(i) \/ BWrite(i) \/ BWriteLost(i) \/ BWriteErr(i) \/ BCloseWrite(i) \/ BCloseConn(i))
-  \/ (\E d \in {"ok", "fail"} : GAccept(d)) \/ GAcceptTemp \/ GAcceptPerm
+  \/ (\E d \in {"ok", "fail"} : GAccept(d)) \/ GAcceptRetryAtOnce \/ GAcceptRetryAfterPause \/ GAcceptPerm
   \/ (\E i \in Conns : GClientChunk(i) \/ GClientEnd(i, "eof") \/ GClientEnd(i, "err") \/ GConnWriteFail(i)
                         \/ GOrChunk(i) \/ GOrFin(i) \/ GOrReset(i))
   \/ GSigterm \/ GStdinEOF
@@ -481,7 +488,6 @@ CopiersGoneFirst ==
 
 LoopEndsOnlyOnPerm == L.pc = "ended" => (L.perm \/ M.lnClosed)
 
-NoSpin == L.spin = 0
 
 (* a failed dial changes nothing but the connection it belongs to *)
 DialFailContinues ==
